@@ -8,6 +8,9 @@ and maximum packet size P are drawn over the threshold classes (W in {32768, 327
 pushes 0..5 x W bytes (capped) through sendall / sendall_stderr following a generated stdout/stderr
 chunk pattern and then shuts its side down; two application threads keep reading stdout and stderr
 with generated read sizes (1 .. > window); optionally set_combine_stderr(True) before or in the middle.
+Half-closed ends (before the transfer or in the middle): the READING side calls shutdown_write() (EOF for its own direction)
+and keeps reading, or the SENDING side calls shutdown_read() and keeps sending.  Senders: one thread making all the calls, or
+two concurrent threads on the one channel (one per stream; per-stream order is then the only defined order).
 Oracle: sendall returns, and what was read equals what was sent (stream-tagged payload: in order per
 stream, right stream, nothing lost or duplicated). "Stuck" = the sender is unfinished and no byte has
 moved on either side for STALL seconds while both readers are blocked in recv; the case is then re-run
@@ -29,8 +32,9 @@ E4 complement (vlib.sched + vlib.chanbench, real Channel objects on fake transpo
 generated schedules with lock-level and optional channel.py line-level switch points, virtual time):
 "e4pup" = the same window-obeying peer as a task next to two reader tasks; "e4pair" = sender channel and
 receiver channel joined by two network tasks that carry DATA/EXTENDED_DATA/EOF one way and WINDOW_ADJUST
-the other way through the real handlers, plus an optional task that calls set_combine_stderr(True) at a
-scheduled moment. Verdicts are exact: deadlock = the scheduler finds no runnable task while the sender /
+(and the receiver's own EOF) the other way through the real handlers, plus optional tasks that call set_combine_stderr(True) /
+the receiver's shutdown_write() / the sender's shutdown_read() at a scheduled moment; one sender task or two (stdout || stderr,
+class "two senders parked on the window at once"); e4pup: optionally the receiver shuts its write side down (before or as a task). Verdicts are exact: deadlock = the scheduler finds no runnable task while the sender /
 peer still has data (no timeouts, no re-runs).
 """
 import hashlib
@@ -52,7 +56,9 @@ LEVEL = "exploration"
 RULE = (
     "pair: direction x receiver window W in {32768,32769,65535,100000,2^21,2^31,2^32-1} x max packet in {4096,4097,32768,2^20,2^32-1} x total "
     "0..5W (capped 1 MiB quick / 3 MiB thorough) x stdout/stderr chunk pattern x stdout and stderr read-size patterns (1..>W) x "
-    "combine_stderr none/at start/mid-way; pup: role x W x P x sequence of DATA / EXTENDED_DATA(type 0..5) messages totalling up to 4W "
+    "combine_stderr none/at start/mid-way x half-close (none / reader's shutdown_write / sender's shutdown_read, at start or mid-way) x 1 or 2 "
+    "concurrent sender threads on the channel; the same dimensions in the E4 families e4pair/e4pup (exact deadlock verdicts); pup (+ receiver "
+    "shutdown_write before message 0/1/3): role x W x P x sequence of DATA / EXTENDED_DATA(type 0..5) messages totalling up to 4W "
     "sent by a window-obeying puppet, application drains after each; non-trivial = pair: total > W (the sender had to wait for "
     "credit); pup: bytes of discarded extended types > W/10 or total > W; distinct by the whole case"
 )
@@ -62,6 +68,11 @@ STALL = 8.0
 SENTINEL_TYPE = 193
 
 _base = {}
+
+# half-closed ends: the READING side has sent EOF for its own direction (shutdown_write) and keeps reading; the SENDING side has
+# shut down its read direction (shutdown_read) and keeps sending - before the transfer or in the middle of it.  (A reader that
+# calls shutdown_read has stopped reading by its own declaration: outside the statement.)
+HALF = ["none", "none", "rcv-shutdown-write:start", "rcv-shutdown-write:mid", "snd-shutdown-read:start", "snd-shutdown-read:mid"]
 
 
 def stream_bytes(tag, n):
@@ -144,19 +155,34 @@ def pair_once(case):
         if combine == "start":
             rchan.set_combine_stderr(True)
         res = {}
+        half = case.get("half", "none")
+        nsend = case.get("senders", 1)
+        if half == "rcv-shutdown-write:start":
+            rchan.shutdown_write()  # the reading side half-closes ITS direction; it keeps reading
+        elif half == "snd-shutdown-read:start":
+            schan.shutdown_read()  # the sending side declares it will not read; it keeps sending
+        groups = [chunks] if nsend == 1 else [[c for c in chunks if c[0] == 0], [c for c in chunks if c[0] == 1]]
+        left = [len(groups)]
+        left_lock = threading.Lock()
+        txs = [0] * len(groups)
 
-        def sender():
+        def sender(gi):
             pos = [0, 0]
             try:
-                for k, size in chunks:
+                for k, size in groups[gi]:
                     piece = data[k][pos[k] : pos[k] + size]
                     pos[k] += size
                     (schan.sendall if k == 0 else schan.sendall_stderr)(piece)
-                    st_["tx"] += size
-                schan.shutdown_write()
-                res["sender"] = "done"
+                    txs[gi] += size
+                    st_["tx"] = sum(txs)
+                with left_lock:
+                    left[0] -= 1
+                    last = left[0] == 0
+                if last:
+                    schan.shutdown_write()
+                res["sender%d" % gi] = "done"
             except Exception as e:
-                res["sender"] = "error: %r" % (e,)
+                res["sender%d" % gi] = "error: %r" % (e,)
 
         def reader(f, sizes, key, nkey):
             i = 0
@@ -172,8 +198,7 @@ def pair_once(case):
             except Exception as e:
                 res[key] = "error: %r" % (e,)
 
-        threads = [
-            threading.Thread(target=sender, daemon=True),
+        threads = [threading.Thread(target=sender, args=(gi,), daemon=True) for gi in range(len(groups))] + [
             threading.Thread(target=reader, args=(rchan.recv, case["reads"], "out", "nout"), daemon=True),
             threading.Thread(target=reader, args=(rchan.recv_stderr, case["ereads"], "err", "nerr"), daemon=True),
         ]
@@ -182,6 +207,7 @@ def pair_once(case):
         total = case["total"]
         mid_at = total // 2
         combined = combine != "mid"
+        halved = not half.endswith(":mid")
         last = (-1, -1, -1)
         last_t = time.time()
         verdict = None
@@ -192,6 +218,15 @@ def pair_once(case):
             if not combined and cur[1] + cur[2] >= mid_at:
                 rchan.set_combine_stderr(True)
                 combined = True
+            if not halved and cur[1] + cur[2] >= mid_at // 2:
+                halved = True
+                try:
+                    if half.startswith("rcv-shutdown-write"):
+                        rchan.shutdown_write()
+                    else:
+                        schan.shutdown_read()
+                except (EOFError, OSError):
+                    pass  # the transfer (and the channel) ended between the progress sample and the call
             now = time.time()
             if cur != last:
                 last, last_t = cur, now
@@ -214,8 +249,9 @@ def pair_once(case):
                 link.quiescent(),
             )
             return "stuck", detail
-        if res.get("sender") != "done":
-            return "sender-error", "sender: %r readers: %r/%r" % (res.get("sender"), res.get("out"), res.get("err"))
+        snd = [res.get("sender%d" % gi) for gi in range(len(groups))]
+        if any(v != "done" for v in snd):
+            return "sender-error", "sender: %r readers: %r/%r" % (snd, res.get("out"), res.get("err"))
         if res.get("out") != "eof" or res.get("err") != "eof":
             return "reader-error", "readers: %r / %r" % (res.get("out"), res.get("err"))
         # a stdout reader that met EOF before the (late) set_combine_stderr moved buffered stderr data over has
@@ -230,14 +266,16 @@ def pair_once(case):
                 if not b:
                     break
                 st_[key].append(b)
-        return judge_streams(combine, chunks, data, b"".join(st_["out"]), b"".join(st_["err"]))
+        return judge_streams(combine, chunks, data, b"".join(st_["out"]), b"".join(st_["err"]), ordered=nsend == 1)
     finally:
         peers.shutdown(tc, ts)
         for t in threads:
             t.join(TO)
 
 
-def judge_streams(combine, chunks, data, out, err):
+def judge_streams(combine, chunks, data, out, err, ordered=True):
+    """ordered: one sender thread made all the calls, so with combining on from the start the combined stream has the order of
+    its calls; with one sender per stream only the order within each stream is defined."""
     out_low = out.translate(None, HIGH)
     out_high = out.translate(None, LOW)
     err_low = err.translate(None, HIGH)
@@ -257,7 +295,10 @@ def judge_streams(combine, chunks, data, out, err):
             return "mismatch", "stderr: read %d (+%d via stdout), sent %d (byte histogram differs)" % (len(err), len(out_high), len(data[1]))
     elif got_err != data[1]:
         return "mismatch", "stderr: read %d (+%d via stdout), sent %d, equal prefix %d" % (len(err), len(out_high), len(data[1]), _eqprefix(got_err, data[1]))
-    if combine == "start":
+    if combine == "start" and not ordered:
+        if out_high != data[1]:
+            return "mismatch", "stderr (combined): read %d, sent %d, equal prefix %d" % (len(out_high), len(data[1]), _eqprefix(out_high, data[1]))
+    elif combine == "start":
         # wire order = order of the sender's calls
         pos = [0, 0]
         exp = []
@@ -285,6 +326,7 @@ def run_pair(ctx, case, state):
     W = case["window"]
     nontrivial = case["total"] > W
     classes = ["pair:" + case["dir"], "pair:combine=" + case["combine"], "pair:W=%d" % W, "pair:P=%d" % case["maxpkt"]] + (["pair:total>W"] if nontrivial else [])
+    classes += ["pair:half-close=" + case.get("half", "none"), "pair:senders=%d" % case.get("senders", 1)]
     if state.get("stuck_reported") and not ctx.replaying:
         ctx.inconc("pair:skipped-after-stuck-verdict")
         return
@@ -306,7 +348,8 @@ def run_pair(ctx, case, state):
             details.append(d2)
         else:
             state["stuck_reported"] = True
-            ctx.violation("transfer-completes", "stuck:%s:%s" % (case["dir"], "total>W" if nontrivial else "total<=W"), case, " || ".join(details)[:3800])
+            how = "" if (case.get("half", "none") == "none" and case.get("senders", 1) == 1) else ":half-close=%s:senders=%d" % (case.get("half", "none").split(":")[0], case.get("senders", 1))
+            ctx.violation("transfer-completes", "stuck:%s:%s%s" % (case["dir"], "total>W" if nontrivial else "total<=W", how), case, " || ".join(details)[:3800])
             return
     ctx.violation("transfer-completes" if verdict in ("sender-error", "reader-error") else "data-intact", "%s:%s" % (verdict, detail.split(":")[0][:40]), case, detail)
 
@@ -404,8 +447,14 @@ def run_pup(ctx, case):
         disc_planned = sum(n for c, n in case["msgs"] if c not in (-1, 1))
         nontrivial = disc_planned > bound or total_planned > adv_w
         classes = ["pup:" + role, "pup:W=%d" % adv_w] + sorted(set("pup:code=%d" % c for c, _ in case["msgs"]))
+        if case.get("half") is not None and case["half"] < len(case["msgs"]):
+            classes.append("pup:receiver-shutdown_write-before-msg-%s" % ("0" if case["half"] == 0 else ">0"))
         ctx.case(case, nontrivial, classes)
+        half_at = case.get("half")
         for mi, (code, n) in enumerate(case["msgs"]):
+            if half_at is not None and mi == half_at:
+                chan.shutdown_write()  # our own direction ends; the peer's data keeps coming and we keep reading
+                sync()
             left = n
             starved = False
             while left > 0:
@@ -533,9 +582,14 @@ def run_e4pup(ctx, case):
 
         return body
 
+    half = case.get("half", "none")
+    if half == "start":
+        chan.shutdown_write()
     sch.spawn("peer", peer)
     sch.spawn("reader-out", reader(0))
     sch.spawn("reader-err", reader(1))
+    if half == "task":
+        sch.spawn("half-closer", lambda: chan.shutdown_write())
     with S.patch_time(sch, *CB.chan_time_modules()):
         res = sch.run()
     for name, info in res.tasks.items():
@@ -543,7 +597,7 @@ def run_e4pup(ctx, case):
             raise HarnessError("C20 e4pup: task %s raised %s" % (name, info.tb))
     total = sum(n for _, n in case["msgs"])
     disc = sum(n for c, n in case["msgs"] if c not in (-1, 1))
-    ctx.case(case, disc > W // 10 or total > W, ["e4pup", "e4pup:outcome=" + str(res.outcome)])
+    ctx.case(case, disc > W // 10 or total > W, ["e4pup", "e4pup:outcome=" + str(res.outcome), "e4pup:receiver-shutdown_write=" + half])
     if res.outcome == "budget":
         ctx.inconc("e4pup:step-budget")
         return
@@ -581,15 +635,28 @@ def run_e4pair(ctx, case):
     if combine == "start":
         B.set_combine_stderr(True)
     st_ = {"sender": False, "out": [], "err": [], "eof": 0, "ab": 0}
+    half = case.get("half", "none")
+    nsend = case.get("senders", 1)
+    if half == "rcv-shutdown-write:start":
+        B.shutdown_write()
+    elif half == "snd-shutdown-read:start":
+        A.shutdown_read()
+    groups = [chunks] if nsend == 1 else [[c for c in chunks if c[0] == 0], [c for c in chunks if c[0] == 1]]
+    left = [len(groups)]
 
-    def sender():
-        pos = [0, 0]
-        for k, size in chunks:
-            piece = data[k][pos[k] : pos[k] + size]
-            pos[k] += size
-            (A.sendall if k == 0 else A.sendall_stderr)(piece)
-        A.shutdown_write()
-        st_["sender"] = True
+    def sender(gi):
+        def body():
+            pos = [0, 0]
+            for k, size in groups[gi]:
+                piece = data[k][pos[k] : pos[k] + size]
+                pos[k] += size
+                (A.sendall if k == 0 else A.sendall_stderr)(piece)
+            left[0] -= 1  # only the baton holder runs: no lock needed
+            if left[0] == 0:
+                A.shutdown_write()
+                st_["sender"] = True
+
+        return body
 
     def net_ab():
         i = 0
@@ -618,6 +685,8 @@ def run_e4pair(ctx, case):
             j += 1
             if e["type"] == "WINDOW_ADJUST":
                 fa.deliver(CB.MSG_CHANNEL_WINDOW_ADJUST, 1, e["n"])
+            elif e["type"] == "EOF":
+                fa.deliver(CB.MSG_CHANNEL_EOF, 1)  # the receiver half-closed its own direction
 
     def reader(key, f, sizes):
         def body():
@@ -632,27 +701,39 @@ def run_e4pair(ctx, case):
 
         return body
 
-    sch.spawn("sender", sender)
+    for gi in range(len(groups)):
+        sch.spawn("sender" if gi == 0 else "sender%d" % gi, sender(gi))
     sch.spawn("net-ab", net_ab)
     sch.spawn("net-ba", net_ba)
     sch.spawn("reader-out", reader("out", B.recv, case["reads"]))
     sch.spawn("reader-err", reader("err", B.recv_stderr, case["ereads"]))
     if combine == "mid":
         sch.spawn("combiner", lambda: B.set_combine_stderr(True))
+    if half == "rcv-shutdown-write:mid":
+        sch.spawn("half-closer", lambda: B.shutdown_write())
+    elif half == "snd-shutdown-read:mid":
+        sch.spawn("half-closer", lambda: A.shutdown_read())
     with S.patch_time(sch, *CB.chan_time_modules()):
         res = sch.run()
     for name, info in res.tasks.items():
         if info.exc is not None:
             raise HarnessError("C20 e4pair: task %s raised %s" % (name, info.tb))
     nontrivial = case["total"] > W
-    ctx.case(case, nontrivial, ["e4pair", "e4pair:combine=" + combine, "e4pair:outcome=" + str(res.outcome)] + (["e4pair:total>W"] if nontrivial else []))
+    both_parked = _two_senders_parked_on_zero_window(res.log) if nsend == 2 else False
+    ctx.case(
+        case,
+        nontrivial,
+        ["e4pair", "e4pair:combine=" + combine, "e4pair:outcome=" + str(res.outcome), "e4pair:half-close=" + half, "e4pair:senders=%d" % nsend]
+        + (["e4pair:total>W"] if nontrivial else [])
+        + (["e4pair:two-senders-parked-on-the-window-at-once"] if both_parked else []),
+    )
     if res.outcome == "budget":
         ctx.inconc("e4pair:step-budget")
         return
     if res.outcome != "ok":
         ctx.violation(
             "transfer-completes",
-            "e4-deadlock:%s" % ("sender-blocked" if not st_["sender"] else "after-sender-finished"),
+            "e4-deadlock:%s%s" % ("sender-blocked" if not st_["sender"] else "after-sender-finished", "" if (half == "none" and nsend == 1) else ":half-close=%s:senders=%d" % (half.split(":")[0], nsend)),
             case,
             "no task can run: sender finished=%s, messages carried A->B %d of %d, read stdout=%d stderr=%d; sender channel %r; receiver channel %r; waits %r"
             % (st_["sender"], st_["ab"], len(fa.wire), sum(map(len, st_["out"])), sum(map(len, st_["err"])), counters(A), counters(B), res.waits),
@@ -669,7 +750,7 @@ def run_e4pair(ctx, case):
             if not b:
                 break
             st_[key].append(b)
-    verdict, detail = judge_streams(combine, chunks, data, b"".join(st_["out"]), b"".join(st_["err"]))
+    verdict, detail = judge_streams(combine, chunks, data, b"".join(st_["out"]), b"".join(st_["err"]), ordered=nsend == 1)
     if verdict != "ok":
         ctx.violation("data-intact", "e4pair:%s" % detail.split(":")[0][:40], case, detail)
 
@@ -677,9 +758,22 @@ def run_e4pair(ctx, case):
 e4_reads = st.lists(st.sampled_from([1000, 3276, 3277, 4096, 32768, 70000]), min_size=1, max_size=3)
 
 
-def _e4pair_build(W, P, mult, pattern, reads, ereads, combine, sched, trace):
+def _e4pair_build(W, P, mult, pattern, reads, ereads, combine, half, senders, sched, trace):
     total = int(min(W * mult, 200000))
-    return {"fam": "e4pair", "window": W, "maxpkt": P, "total": total, "pattern": pattern, "reads": reads, "ereads": ereads, "combine": combine, "sched": sched, "trace": trace}
+    return {"fam": "e4pair", "window": W, "maxpkt": P, "total": total, "pattern": pattern, "reads": reads, "ereads": ereads, "combine": combine, "half": half, "senders": senders, "sched": sched, "trace": trace}
+
+
+def _two_senders_parked_on_zero_window(log):
+    """Both sender tasks were waiting on the sender channel's window condition at the same moment (lock/condition events only)."""
+    waiting = set()
+    for ev in log:
+        if ev[0] == "wait" and ev[2] == "A.out_buffer_cv":
+            waiting.add(ev[1])
+            if len(waiting) >= 2:
+                return True
+        elif ev[0] == "woken" and ev[2] == "A.out_buffer_cv":
+            waiting.discard(ev[1])
+    return False
 
 
 e4pair_case = st.builds(
@@ -691,6 +785,8 @@ e4pair_case = st.builds(
     e4_reads,
     e4_reads,
     st.sampled_from(["none", "none", "start", "mid"]),
+    st.sampled_from(HALF),
+    st.sampled_from([1, 2]),
     S.schedule_strategy(max_pre=4, max_gap=60, max_forced=12),
     st.sampled_from([False, False, True]),
 )
@@ -701,6 +797,7 @@ e4pup_case = st.fixed_dictionaries(
         "maxpkt": st.sampled_from([4096, 32768, 1 << 20]),
         "msgs": st.lists(st.tuples(st.sampled_from([-1, 0, 1, 2, 3, 4, 5]), st.one_of(st.sampled_from([1, 3276, 3277, 32768]), st.integers(1, 40000))), min_size=1, max_size=8),
         "reads": e4_reads,
+        "half": st.sampled_from(["none", "none", "start", "task"]),
         "sched": S.schedule_strategy(max_pre=3, max_gap=40, max_forced=10),
         "trace": st.sampled_from([False, False, True]),
     }
@@ -716,13 +813,13 @@ read_sizes = st.one_of(st.sampled_from([1, 7, 3276, 3277, 4096, 32768, 65536, 1 
 
 
 def pair_cases(cap):
-    def build(d, W, P, mult, pattern, reads, ereads, combine):
+    def build(d, W, P, mult, pattern, reads, ereads, combine, half, senders):
         total = min(int(W * mult), cap)
         # keep the number of send / recv calls bounded (size-1 patterns on big totals)
         mean_c = sum(s for _, s in pattern) / len(pattern)
         mean_r = min(sum(reads) / len(reads), sum(ereads) / len(ereads))
         total = int(min(total, 3000 * mean_c, 6000 * mean_r))
-        return {"fam": "pair", "dir": d, "window": W, "maxpkt": P, "total": total, "pattern": pattern, "reads": reads, "ereads": ereads, "combine": combine}
+        return {"fam": "pair", "dir": d, "window": W, "maxpkt": P, "total": total, "pattern": pattern, "reads": reads, "ereads": ereads, "combine": combine, "half": half, "senders": senders}
 
     return st.builds(
         build,
@@ -734,6 +831,8 @@ def pair_cases(cap):
         st.lists(read_sizes, min_size=1, max_size=4),
         st.lists(read_sizes, min_size=1, max_size=4),
         st.sampled_from(["none", "none", "start", "mid"]),
+        st.sampled_from(HALF),
+        st.sampled_from([1, 2]),
     )
 
 
@@ -745,6 +844,7 @@ pup_case = st.fixed_dictionaries(
         "maxpkt": st.sampled_from([4096, 4097, 32768, 1 << 20]),
         "msgs": st.lists(st.tuples(st.sampled_from([-1, 0, 1, 2, 3, 4, 5]), st.one_of(st.sampled_from([1, 3276, 3277, 4096, 32768]), st.integers(1, 40000))), min_size=1, max_size=14),
         "reads": st.lists(read_sizes, min_size=1, max_size=3),
+        "half": st.sampled_from([None, None, 0, 1, 3]),
     }
 )
 
